@@ -65,24 +65,46 @@ pub fn gen_poly(rng: &mut Rng) -> Option<Case> {
   let mut pts: Vec<(f64, f64)> = bear.iter().map(|&b| match special { Some((sp, th)) if th == b => (sp.0.rem_euclid(TWO_PI), sp.1), _ => point_at(lon, lat, if convex { rmax } else { rmax * (0.3 + 0.7 * rng.f()) }, b) }).collect();
   // one polygon in 12 is a longitude / latitude box: two edges exactly along meridians (consecutive vertices with the same longitude),
   // two edges between vertices of equal latitude
-  let mut convex = convex;
+  let mut convex = convex; let mut on_seam = false; let mut near_meridian_edge = false;
   if rng.below(12) == 0 && special.is_none() && lat.abs() + 1.5 * rmax < PI / 2.0 {
     let (w, h) = (rmax * rng.range(0.2, 0.7) / lat.cos().max(1e-3), rmax * rng.range(0.2, 0.7));
     pts = vec![(lon - w, lat - h), (lon + w, lat - h), (lon + w, lat + h), (lon - w, lat + h)];
     convex = true;
+    // one box in three has its west side EXACTLY on a meridian k.pi/2 (in a polar cap: the great circle of a base-cell border)
+    if rng.below(3) == 0 { let l0 = ((lon - w) / (PI / 2.0)).round() * (PI / 2.0); pts = vec![(l0, lat - h), (l0 + 2.0 * w, lat - h), (l0 + 2.0 * w, lat + h), (l0, lat + h)]; lon = l0 + w; on_seam = true; }
+  }
+  // one polygon in 16: a triangle with an edge exactly on a meridian k.pi/2 (two vertices of longitude k.pi/2), half of them in a polar cap
+  if rng.below(16) == 0 && special.is_none() && !near_pole {
+    let l0 = (lon / (PI / 2.0)).round() * (PI / 2.0);
+    let b0 = if rng.coin() { lat } else { (trans_lat() + 0.02 + rng.f() * (PI / 2.0 - trans_lat() - 0.06 - 2.0 * rmax).max(0.0)) * if rng.coin() { 1.0 } else { -1.0 } };
+    let (h1, h2, w) = (rmax * rng.range(0.2, 0.9), rmax * rng.range(0.2, 0.9), rmax * rng.range(0.2, 0.9) / b0.cos().max(1e-3) * if rng.coin() { 1.0 } else { -1.0 });
+    if b0.abs() + 1.5 * rmax < PI / 2.0 - 0.02 {
+      pts = vec![(l0, b0 - h1), (l0 + w, b0 + (rng.f() - 0.5) * h1.min(h2)), (l0, b0 + h2)]; if w < 0.0 { pts.reverse(); }
+      lon = l0 + w / 3.0; lat = b0; convex = true; on_seam = true;
+    }
+  }
+  // one polygon in 16: a triangle with an edge ALMOST along a meridian (longitudes of its ends 1e-13 .. 1e-8 rad apart): the side-of-plane
+  // test of a point of that meridian is ill-conditioned far beyond rounding distance from the edge
+  if rng.below(16) == 0 && special.is_none() && !near_pole && !on_seam && lat.abs() + 2.5 * rmax < PI / 2.0 - 0.02 {
+    let sgn = if rng.coin() { 1.0 } else { -1.0 }; let dlon = rng.log_uniform(1e-13, 1e-8) * if rng.coin() { 1.0 } else { -1.0 };
+    let w = rmax * rng.range(0.3, 1.0) / lat.cos().max(1e-3) * if rng.coin() { 1.0 } else { -1.0 }; let h = rmax * rng.range(0.3, 1.0);
+    pts = vec![(lon - w, lat - sgn * h), (lon, lat), (lon + dlon, lat - sgn * 2.0 * h)];
+    // counter-clockwise order is not required (either winding), but the centre of the generation circle must be inside the circle of the vertices
+    lat -= sgn * h; lon -= w / 3.0; convex = true; near_meridian_edge = true;
   }
   let cw = rng.coin();
   if cw { pts.reverse(); }
   // vertices given with longitudes outside [0, 2pi) (one polygon in 12, each vertex independently)
-  if rng.below(12) == 0 { for p in pts.iter_mut() { if rng.coin() { p.0 += *rng.pick(&[-2.0, -1.0, 1.0]) * TWO_PI; } } }
+  // (one in 3 when an edge lies on a meridian k.pi/2: the two ends of the same meridian given with different numbers of turns)
+  if rng.below(if on_seam { 3 } else { 12 }) == 0 { for p in pts.iter_mut() { if rng.coin() { p.0 += *rng.pick(&[-2.0, -1.0, 1.0]) * TWO_PI; } } }
   for p in pts.iter() { vl.push(p.0); vb.push(p.1); }
-  Some(Case::new("poly").u("depth", depth as u64).b("convex", convex).b("cw", cw).f("lon", lon).f("lat", lat).f("R", rmax).fl("vl", &vl).fl("vb", &vb).u("s", rng.next() >> 1).s("cls", &format!("R~1e{}", rmax.log10().floor() as i32)))
+  Some(Case::new("poly").u("depth", depth as u64).b("convex", convex).b("cw", cw).f("lon", lon).f("lat", lat).f("R", rmax).fl("vl", &vl).fl("vb", &vb).u("s", rng.next() >> 1).s("cls", &format!("R~1e{}{}", rmax.log10().floor() as i32, if on_seam { "/edge-on-k.pi/2" } else if near_meridian_edge { "/edge-almost-meridian" } else { "" })))
 }
 
 fn run(ctx: &mut Ctx, extra: &mut BTreeMap<String, String>) {
   let seed = ctx.seed;
   let small = ctx.pass != "release";
-  let n = if ctx.thorough { if small { 4000 } else { 4_000_000 } } else if small { 4000 } else { 320_000 };
+  let n = if ctx.thorough { if small { 480_000 } else { 4_000_000 } } else if small { 48_000 } else { 320_000 };
   extra.insert("polygons".into(), format!("{}", n));
   run_sharded(ctx, 16, |c, k| {
     let mut rng = Rng::new(seed, 1200 + k as u64);
@@ -186,10 +208,13 @@ pub fn judge(ctx: &mut Ctx, c: &Case) {
     let r = catch(|| Polygon::new(poly.iter().map(|p| LonLat { lon: p.0, lat: p.1 }).collect::<Vec<_>>().into_boxed_slice()));
     match r {
       Err(p) => ctx.violation("Polygon::new-panics", c.clone(), p),
-      Ok(pg) => for k in 0..(60 + 7 * poly.len()) {
+      Ok(pg) => for k in 0..(60 + 11 * poly.len()) {
         // 60 probes on the sphere / around the polygon, then for each vertex 7 probes on its meridian +- 0..3 ulps (the degenerate case of
         // a ray-casting test: the probe's longitude equals, or is within rounding of, a vertex longitude), at a random latitude of the polygon's extent
-        let p = if k >= 60 { let v = poly[(k - 60) / 7]; let u = ((k - 60) % 7) as i64 - 3; (nudge(v.0, u), (lat + rmax * 1.2 * (2.0 * rng.f() - 1.0)).max(-PI / 2.0).min(PI / 2.0)) }
+        // ... and 4 probes on the vertex meridian (+- 0..1 ulp) at 1e-9 R .. R north / south of the vertex itself (log-uniform)
+        let p = if k >= 60 + 7 * poly.len() { let j = k - 60 - 7 * poly.len(); let v = poly[j / 4]; let sg = if j % 2 == 0 { 1.0 } else { -1.0 };
+            (nudge(v.0, (j % 4) as i64 / 2), (v.1 + sg * rmax * rng.log_uniform(1e-9, 1.0)).max(-PI / 2.0).min(PI / 2.0)) }
+          else if k >= 60 { let v = poly[(k - 60) / 7]; let u = ((k - 60) % 7) as i64 - 3; (nudge(v.0, u), (lat + rmax * 1.2 * (2.0 * rng.f() - 1.0)).max(-PI / 2.0).min(PI / 2.0)) }
           else if k % 3 == 0 { rng.sphere() } else { point_at(lon, lat, rmax * 1.5 * rng.f(), rng.f() * TWO_PI) };
         let m = convex_margin_acc(&poly, (lon, lat), rmax, p);
         if m.abs() < 1e-12 { continue; }
